@@ -58,7 +58,7 @@ def generate(seed: int, tier: str):
             shape[rng.randrange(3)] = rng.randint(12, 15)
             n = rng.randint(2, 4)
     layouts = [{"kind": "numpy", "chunks": None, "style": "numpy"}]
-    for _ in range(rng.randint(2, 3)):
+    for _ in range(rng.randint(2, 3) if tier == "quick" else rng.randint(3, 5)):
         kind = rng.choice(["dask", "dask", "sim"])
         style = rng.choice(["single", "regular", "regular", "irregular", "tiny", "halves"])
         if style == "halves":
